@@ -23,13 +23,15 @@ RULE = ("classes over the serializable fragment (20% with lossy kinds); document
         "whether it lies inside the PROVED exact fragment; non-trivial = "
         "constraint or nesting; distinct by case hash; plus the extras stream (suites/extras.py) over DecimalNumber / Enum by value and "
         "by name (plain, IntEnum, Flag, str-valued enums, falsy members) / date, time and formatted-string fields, bare and inside "
-        "Optional/Array/Deque/Set/Map/Tuple/nested collections/Optional[Union[X, int]]: the JSON image of valid instances (written down "
+        "Optional/Array/Deque/Set/Map/Tuple/nested collections/Optional[Union[X, int]], at top level and one class level down, "
+        "also in classes with _enable_undefined_value: the JSON image of valid instances (written down "
         "independently of the Serializer) and the image with one leaf replaced by each of 36 values (wrong JSON types, ill-formatted "
         "strings, numbers of several magnitudes incl. epoch-like ints and floats, NaN / Infinity strings, names for values and values for "
         "names): the Deserializer must accept EXACTLY when the constructor accepts what the document denotes (documented lifting: arrays "
         "-> list/deque/set/tuple, a by-value enum value -> the member with that value, every other leaf as it is), with an equal "
         "instance, and reject with TypeError/ValueError only; the cases the Lean model of the extension kinds covers are corresponded "
-        "with it (suite serdex: accept / reject, exception class, result); plus DecimalNumber bound probes (float neighbours of the "
+        "with it (suite serdex: accept / reject, exception class, result); deserialize_structure(cls, d, keep_undefined=...) must agree "
+        "with Deserializer(cls).deserialize(d); plus DecimalNumber bound probes (float neighbours of the "
         "bound); plus an oracle-only INHERITANCE stream "
         "(suites/inheritdeser.py): chains, several bases and diamonds with a field re-declared at any class of the hierarchy; for "
         "JSON-native documents the Deserializer of the most derived class must accept exactly when its constructor does, with an "
@@ -37,13 +39,13 @@ RULE = ("classes over the serializable fragment (20% with lossy kinds); document
 ASSUMPTIONS = [
     "mapper-free; fail-fast mode (the default); AnyOf/OneOf/AllOf/NotField fields other than Optional are corresponded but have no lifting spec (they need the validation result to choose an option)",
     "an array for a Set field that holds values == to each other but of different JSON type (1 / true / 1.0), and AnyOf[DecimalNumber(bounds), Integer] (two options reading the same JSON type) are ambiguous and excluded from the both-directions oracle",
-    "compact deserialization, DateString/TimeString/HostName/IPV4/EmailAddress leaves, a Decimal read from a string and a DateTime read from an epoch integer are not in the Lean model (oracle-only)",
+    "compact deserialization, raw values of a mixin enum, NaN / Infinity Decimals and a DateTime read from an epoch integer are not in the Lean model (oracle-only); float(Decimal), Decimal(str), strptime, strftime and the format tests are oracles of the model",
 ]
 
 
 def cases(rng, tier):
     return [c for c in S.gen_cases(rng, tier, 200 if tier == "quick" else 3000) if c["mode"] == "deser"] \
-        + S.size_bound_cases(random.Random("size" + str(rng.getstate()[1][0]))) \
+        + S.size_bound_cases(random.Random("size" + str(rng.getstate()[1][0]))) + S.offpath_null_cases() \
         + X.directed_corrupt_cases() + X.gen_corrupt_cases(rng, 300 if tier == "quick" else 6000) \
         + X.directed_image_cases() + X.image_cases(random.Random("img" + str(rng.getstate()[1][0])), 150 if tier == "quick" else 3000) \
         + [dict(c, suite="extras-corrupt", nested=False, corrupt=[random.Random(str(i)).randrange(len(c["fields"])), i % len(X.CORRUPTIONS), i % 3])
@@ -137,6 +139,16 @@ def judge(case, impl, model):
         if ("ok" in fn) != ("ok" in got) or ("err" in fn and fn["err"] != got["err"]) or ("ok" in fn and not S._same(fn["ok"], got["ok"])):
             fails.append((f"deserialize-fn-differs:{kinds}", "deserialize_structure(cls, d, keep_undefined=...) and Deserializer(cls).deserialize(d) disagree: "
                           + json.dumps(fn)[:150] + " vs " + json.dumps(got)[:150] + " for " + json.dumps(case["doc"])[:150]))
+    if model.get("liftable") and offpath and not S.crosstype_duplicates(case["doc"]):
+        # a null for an optional field INSIDE an inline StructureReference that is reached through a Map value, a Tuple
+        # item, a Deque or a nested Array: everywhere else (class references at any position, an inline class held
+        # directly or as a direct Array item) a null is the same as an absent key; there it is handed to the field as
+        # the value None.  The Lean model reads a null as absent everywhere (the documented reading), so only the
+        # over-rejection is reported here (correspondence is not demanded for these documents).
+        exp = model["expected"]
+        if "ok" in exp and "ok" not in got:
+            fails.append(("rejects-image:null-in-off-path-inline-reference",
+                          f"document is the JSON form of constructor-valid arguments (a null = an absent optional field) but the Deserializer raises {got['err']}: {got.get('msg')}; doc " + json.dumps(case["doc"])[:250]))
     if impl.get("doc_unchanged") is False:
         fails.append((f"mutates-document:{kinds}", "Deserializer modified the caller's document (C19)"))
     return msg, fails
